@@ -24,6 +24,7 @@ CONSTANTS Buf,        \* line-buffer-size
                       \*        (and emits a hunk header that is still pending)
                       \*  "D18" a "---" line of a diff -u stream opens a new file section
                       \*  "D19" a Submodule log line first writes the header still owed to the previous section
+                      \*  "D21" the header written for a mode change also says that the file is binary
                       \*  "D20" "+++ /dev/null" keeps the language chosen from the old name (deleted file)
                       \* Fixes = {} is the tree as pinned; the regression configs drop one fix and
                       \* must produce a counterexample (the design-level check is not vacuous).
@@ -80,7 +81,7 @@ Pending(s) ==
   IF s.st # "DiffHeader" /\ s.src # "DiffU" THEN s
   ELSE LET s1 == IF FixEmit THEN Emit(s) ELSE s IN
        IF s1.mode # 0
-       THEN [Direct(s1, Row("fileHdr", s1.seck, <<s1.dlf, s1.dlf, "modified", s1.mode, FALSE>>))
+       THEN [Direct(s1, Row("fileHdr", s1.seck, <<s1.dlf, s1.dlf, "modified", s1.mode, "D21" \in Fixes /\ s1.bin>>))
                EXCEPT !.mode = 0, !.handled = IF "D14" \in Fixes THEN s1.cur ELSE @]
        ELSE IF s1.handled # s1.cur THEN WriteHeader(s1)
        ELSE s1
